@@ -24,6 +24,7 @@ RULE = ("three monitors over the REAL generated functions (collected through the
         "homonyms, classes named like the generator's own globals); decoded field values must be instances of exactly the "
         "annotated class object and encoding must use the right class. distinct_nontrivial = distinct (schema shape, "
         "monitor) pairs plus distinct generated functions walked.")
+RULE += " Additions: user modules named like names of the code generator / of generated locals (F50, F51 pinned by name); defaults whose class comes from a module no annotation mentions; one generic specialisation met while another is being compiled."
 ASSUMPTIONS = ["the closure walk checks name resolution of unexecuted paths, not their semantics",
                "generated functions are those exec'ed from frames inside the mashumaro package"]
 BUDGET_S = {"quick": 150, "thorough": 1500}
